@@ -391,6 +391,85 @@ func runC06(c *core.Ctx) {
 	// replica restored from a snapshot differs from the replicas that applied the log (shared with C07 D1 / C19 D4)
 	c.Clause("D8", func() { runCloneCompleteness(c) })
 
+	c.Clause("D9", func() {
+		// No shard lists an owner twice: a function that adds the owner it is asked for (ShardOwner{NodeID: <param>}) first
+		// scans the owners for that node and returns on a match, and that scan looks at every owner (no break/goto out
+		// of it: the owner list has no guaranteed order, CreateShardGroup's round-robin wraps around).
+		n := 0
+		for _, g := range c.P.FuncsIn(metap) {
+			if g.Decl == nil || g.Body == nil || g.Lit != nil {
+				continue
+			}
+			info := g.Info()
+			params := map[types.Object]bool{}
+			for _, fld := range g.Decl.Type.Params.List {
+				for _, nm := range fld.Names {
+					params[info.Defs[nm]] = true
+				}
+			}
+			var asked types.Object
+			var askedPos token.Pos
+			ast.Inspect(g.Body, func(nd ast.Node) bool {
+				cl, ok := nd.(*ast.CompositeLit)
+				if !ok {
+					return true
+				}
+				if nt, ok := info.TypeOf(cl).(*types.Named); !ok || nt.Obj().Name() != "ShardOwner" {
+					return true
+				}
+				for _, el := range cl.Elts {
+					if kv, ok := el.(*ast.KeyValueExpr); ok {
+						if id, ok := ast.Unparen(kv.Value).(*ast.Ident); ok && params[info.ObjectOf(id)] {
+							asked, askedPos = info.ObjectOf(id), cl.Pos()
+						}
+					}
+				}
+				return true
+			})
+			if asked == nil {
+				continue
+			}
+			n++
+			// the membership scan: a range loop whose body returns under `<x>.NodeID == asked`
+			var scan *ast.RangeStmt
+			ast.Inspect(g.Body, func(nd ast.Node) bool {
+				rs, ok := nd.(*ast.RangeStmt)
+				if !ok || scan != nil {
+					return true
+				}
+				for _, st := range rs.Body.List {
+					ifs, ok := st.(*ast.IfStmt)
+					if !ok {
+						continue
+					}
+					be, ok := ast.Unparen(ifs.Cond).(*ast.BinaryExpr)
+					if !ok || be.Op != token.EQL {
+						continue
+					}
+					se, ok := ast.Unparen(be.X).(*ast.SelectorExpr)
+					if !ok || se.Sel.Name != "NodeID" || !isIdentObj(info, be.Y, asked) {
+						continue
+					}
+					for _, b := range ifs.Body.List {
+						if _, ok := b.(*ast.ReturnStmt); ok {
+							scan = rs
+						}
+					}
+				}
+				return true
+			})
+			if scan == nil {
+				c.Check("owner-added-once", g.Name+"/membership-scan", c.P.Pos(askedPos), false,
+					"the function adds the requested node as an owner without first scanning the owners for it: a repeated request lists the node twice, and removing the node later strips only one copy")
+				continue
+			}
+			exits := loopEarlyExits(c, scan.Body)
+			c.Check("owner-added-once", g.Name+"/membership-scan", c.P.Pos(scan.Pos()), len(exits) == 0 && scan.Pos() < askedPos,
+				"the scan that looks for the requested node among the owners stops early ("+strings.Join(exits, ", ")+"): an owner behind the stopping point is not seen and the node is added a second time")
+		}
+		c.Floor("functions adding a requested owner", n, 1)
+	})
+
 	c.Clause("D5", func() { runTimePredicates(c) })
 
 	c.Clause("D6", func() { runOwnerRoundRobin(c) })
